@@ -487,6 +487,13 @@ func (rangeEngine) Run(ctx *fw.Ctx, cs any) {
 	}
 	if c.SlowRenew > 0 && used > 0 {
 		cl := c.Clients[r.rng.Intn(used)]
+		for k, at := 0, r.rng.Intn(used); k < used; k++ { // a client that holds an address, if there is one
+			cand := c.Clients[(at+k)%used]
+			if _, ok := r.m.Bind[clientKey(mustHex(cand.Mac))]; ok {
+				cl = cand
+				break
+			}
+		}
 		mac, _ := hex.DecodeString(cl.Mac)
 		key := clientKey(mac)
 		if _, bound := r.m.Bind[key]; bound {
@@ -543,6 +550,10 @@ func (rangeEngine) Run(ctx *fw.Ctx, cs any) {
 					ctx.Viol("C02", sig, "after its lease time had passed and the pool was exhausted: %s\n  last: %v", msg, r.trace)
 				}
 				ctx.Count("range.rechecked_after_expiry", 1)
+			}
+			// and the database written through all of this restores the same bindings
+			if !r.crashPoint(c.Reqs + 5) {
+				return
 			}
 		}
 	}
